@@ -12,6 +12,9 @@ use std::str::FromStr;
 
 use std::sync::Arc;
 #[cfg(feature = "verif-hooks")]
+#[allow(unused_imports)]
+use std::sync::atomic::*;
+#[cfg(feature = "verif-hooks")]
 use crate::verif::{AtomicU64, AtomicUsize};
 #[cfg(feature = "verif-hooks")]
 use std::sync::atomic::Ordering;
